@@ -203,9 +203,12 @@ def rule_stop(m, rep):
     return flagname
 
 
-def rule_run_exit(m, rep, flagname):
+def rule_run_exit(m, rep, flagname, only=None):
     """R1b flag read before blocking, R2 termination after the loop, R3 drain before stop."""
-    lm = LoopModel(m, rep, 'R2')
+    if only is not None:
+        from .values import _Filter
+        rep = _Filter(rep, drop=tuple(r for r in ('R1b', 'R2', 'R3') if r not in only))
+    lm = LoopModel(m, rep, 'R2' if only is None else only[0])
     if not lm.ok:
         return
     body, T = lm.body, lm.T
